@@ -2601,8 +2601,14 @@ where
             }
         }
 
-        // Level 3 (topology)
+        // Level 3 (topology), then the completion-time PL-manifold check that `validate()` runs
+        // after it (vertex links for `TopologyGuarantee::PLManifold`).
         if let Err(e) = self.is_valid() {
+            violations.push(InvariantViolation {
+                kind: InvariantKind::Topology,
+                error: e.into(),
+            });
+        } else if let Err(e) = self.validate_at_completion() {
             violations.push(InvariantViolation {
                 kind: InvariantKind::Topology,
                 error: e.into(),
